@@ -226,6 +226,14 @@ def run(R, tier, seed, driver_ok):
                 R.case(('c06', name, 'fit', tag), True, branch='labels')
                 fresh = zoo.CLASSES[name](**params)
                 call(R, name, fresh.fit, (fa[0], yy), f'{name}.fit/{tag}', f'fit(labels {tag})', {'est': name, 'method': 'fit', 'malformation': tag})
+        if len(fa) > 1:
+            # labels with the right number of entries but not one-dimensional: a row, a two-column table, two rows
+            ylen = len(fa[1]); y1 = np.asarray(fa[1]); ev = ylen - ylen % 2
+            for tag, yy, data in [('labels-row', y1.reshape(1, ylen), fa[0]), ('labels-table', y1[:ev].reshape(ev // 2, 2), fa[0][:ev]),
+                                  ('labels-two-rows', y1[:ev].reshape(2, ev // 2), fa[0][:ev])]:
+                R.case(('c06', name, 'fit', tag), True, branch='labels')
+                fresh = zoo.CLASSES[name](**params)
+                call(R, name, fresh.fit, (data, yy), f'{name}.fit/{tag}', f'fit(labels of shape {yy.shape} for {len(data)} samples)', {'est': name, 'method': 'fit', 'malformation': tag})
         if name in zoo.PAIRS:
             npairs = len(fa[1])
             for tag, yy in [('labels-01', np.arange(npairs) % 2), ('labels--1-2', np.where(np.arange(npairs) % 2, -1, 2)),
@@ -239,6 +247,27 @@ def run(R, tier, seed, driver_ok):
                 p2 = dict(params); p2['n_components'] = nc
                 fresh = zoo.CLASSES[name](**p2)
                 call(R, name, fresh.fit, fa, f'{name}.fit/n_components-out-of-range', f'fit with n_components={nc}, d={d}', {'est': name, 'method': 'fit', 'n_components': nc, 'd': d})
+            # a number of components that is not an integer (the tree as given handed 1.5 to ARPACK / np.eye: defect D42, repaired)
+            for nc in (1.5, float(d), 0.5):
+                R.case(('c06', name, 'fit', f'n_components={nc!r}'), True, branch='n_components')
+                case_nc = {'est': name, 'method': 'fit', 'n_components': nc, 'd': d}
+                if name == 'LFDA':
+                    # (in a child process: the unrepaired code crashes the interpreter here)
+                    import subprocess, sys as _sys
+                    from common import REPO
+                    code = ('import sys, warnings; sys.path.insert(0, %r); warnings.simplefilter("ignore"); import numpy as np; from metric_learn import LFDA\n'
+                            'rng = np.random.RandomState(0); X = rng.randn(30, %d); y = np.arange(30) %% 3\n'
+                            'try:\n    LFDA(n_components=%r).fit(X, y); print("OUTCOME returned")\n'
+                            'except ValueError: print("OUTCOME ValueError")\n'
+                            'except Exception as e: print("OUTCOME", type(e).__name__)\n') % (REPO, max(d, 2), nc)
+                    pr = subprocess.run([_sys.executable, '-c', code], stdout=subprocess.PIPE, stderr=subprocess.DEVNULL, timeout=300)
+                    outc = ([l.split()[1] for l in pr.stdout.decode().splitlines() if l.startswith('OUTCOME')] or [f'interpreter-died({pr.returncode})'])[0]
+                    if outc != 'ValueError':
+                        R.violation(f'{name}.fit/n_components-not-integer/{outc}', f'{name}: fit with n_components={nc!r}, d={max(d, 2)} → {outc} (expected ValueError)', case_nc)
+                    continue
+                p2 = dict(params); p2['n_components'] = nc
+                fresh = zoo.CLASSES[name](**p2)
+                call(R, name, fresh.fit, fa, f'{name}.fit/n_components-not-integer', f'fit with n_components={nc!r}, d={d}', case_nc)
         # ---- well-formed equivalent array-likes: same numbers, same results
         Xi = np.round(X * 1000)      # integer-valued, fine enough that the neighbour searches have no ties
         ia_, fa_i = zoo.fit_args(name, Xi, y, np.random.RandomState(seed), indices=True)
